@@ -183,6 +183,8 @@ type Worker struct {
 	deadlockWhy string
 	lockHook    func(what string, mu *Value, fr *frame)
 	curFrame    *frame
+	fixed       []Draw
+	fixedPos    int
 	model       map[string]uint64 // a model of the current path condition (nil: unknown)
 	modelHits   int64
 }
@@ -948,6 +950,13 @@ func (e *Engine) RunConcrete(k int, fixed [][]Draw) ([]ConcTrace, error) {
 	w.concrete = true
 	e.Traces = nil
 	for i := 0; i < k; i++ {
+		w.runPath(nil)
+	}
+	for _, f := range fixed {
+		w.fixed, w.fixedPos = f, 0
+		if w.fixed == nil {
+			w.fixed = []Draw{}
+		}
 		w.runPath(nil)
 	}
 	return e.Traces, nil
